@@ -7,8 +7,8 @@ BUILT = sys.argv[1].split(",") if len(sys.argv) > 1 else ["C14", "C15", "C16", "
 
 CHECKS = {
  "C14": dict(cat="exploration", ref="DESIGN.md §4.5",
-   text="Seeded simulation of a writer laying sequence files out on an in-memory disk (incl. torn writes and single-character corruptions) and of the reader fetching them through CPython's real text/buffer layers over a simulated raw device with short reads, EIO and open errors; every parse is compared with an independent grammar-level reference parser applied to the bytes on the simulated disk, with handle conservation. Sampling, not proof.",
-   note="Trusts the reference parser (written from the statement), CPython's io stack (real Text/Buffered layers over a fault-injecting raw layer on real scratch files), and that ambiguous layouts (whitespace at line ends, characters some splitters treat as line boundaries, BOM, lone CR, non-ASCII digits, empty result) are outside the statement: they are DISCARDED, not judged.",
+   text="Seeded simulation of a writer laying sequence files out on a simulated disk (a fault-injecting layer over real scratch files; incl. torn writes and single-character corruptions) and of the reader fetching them through CPython's real text/buffer layers over a simulated raw device with short reads, EIO and open errors; every parse is compared with an independent grammar-level reference parser applied to the bytes on the simulated disk (open handles are counted as a probe, not a verdict). Sampling, not proof.",
+   note="Trusts the reference parser (written from the statement), CPython's io stack (real Text/Buffered layers over a fault-injecting raw layer on real scratch files), and that ambiguous layouts (whitespace at line ends, characters some splitters treat as line boundaries, BOM, lone CR, non-ASCII digits, empty result) are outside the statement: they are DISCARDED, not judged; a file with lower-case residue letters may be rejected or must parse to exactly the upper-cased residues.",
    tech="deterministic simulation: simulated disk + fault-injected reads vs reference parser"),
  "C15": dict(cat="exploration", ref="DESIGN.md §4.3",
    text="Seeded scheduler interleaves read-only queries (valid and failing) from several live objects; every returned value is compared bit-for-bit with the same call on a fresh object in a pristine forked interpreter that has only replayed the object's mutators. Sampling of histories, not proof.",
@@ -23,8 +23,8 @@ CHECKS = {
    note="Trusts that CPython's sample/shuffle/randint are built on random/getrandbits/_randbelow (verified on 3.12); permute_cluster_charges non-termination is counted as BUDGET, not as a violation.",
    tech="deterministic simulation: simulated clock + RNG tapes, seeded move chains"),
  "C18": dict(cat="exploration", ref="DESIGN.md §4.1",
-   text="Whole Wang-Landau runs execute under a simulator that owns both RNGs (adversarial acceptance draws placed relative to the model's acceptance probability), the clock and the log directory (in-memory disk with EIO/ENOSPC/open errors, crash with torn write, restart into the dirty directory); an independent lock-step WL bookkeeping model and a log-text model are compared after every step, at every crash point and on the final outputs.",
-   note="Trusts the reference model, the real Sequence.kappa as bin oracle, and the guarded per-step hook (falls back to seam-only observation when the hook is absent). Runs are capped; convergence within the cap is not required. A run that returns normally is held to complete agreement of all outputs; nothing is asserted about the disk of a run that failed after an injected fault. Runs whose draw pattern the RNG seam cannot follow are DISCARDED.",
+   text="Whole Wang-Landau runs execute under a simulator that owns both RNGs (adversarial acceptance draws placed relative to the model's acceptance probability), the clock and the log directory (a fault-injecting layer over real scratch files: EIO/ENOSPC/open errors, crash with torn write, restart into the dirty directory); an independent lock-step WL bookkeeping model is compared after every step (hook records, numerically parsed log rows) and on the final outputs of every run that returns normally.",
+   note="Trusts the reference model, the real Sequence.kappa as bin oracle, and the guarded per-step hook (falls back to seam-only observation when the hook is absent). Runs are capped; convergence within the cap is not required. A run that returns normally is held to complete agreement of all outputs; nothing is asserted about the disk of a run that failed after an injected fault. Runs whose draw pattern the RNG seam cannot follow are DISCARDED; where an implementation draws its acceptance numbers outside the seam, decisions are followed from the hook record and their frequencies tested with a Bernstein bound (alarm only below 1e-12).",
    tech="deterministic simulation with fault injection: RNG tapes, simulated clock and disk, lock-step reference model"),
  "C20": dict(cat="fault_enumeration", ref="DESIGN.md §4.6",
    text="Histories of palette updates in which the update fails at every possible step of its 20-step validation loop (all 20x2 failure points enumerated, plus seeded histories) interleaved with renders over several live objects; checked against a reference palette and a structural reference renderer after every operation.",
